@@ -2,5 +2,5 @@
 # Copy the macro crate's current sources next to the harness root (T1/T2, DESIGN.md section 4).
 set -e
 cd "$(dirname "$0")"
-rsync -rc --delete --exclude lib.rs --exclude main.rs --exclude dump.rs /repo/assert-struct-macros/src/ src/
+rsync -rc --delete --exclude lib.rs --exclude main.rs --exclude dump.rs --exclude dump_syn.rs --exclude toks_cmds.rs --exclude toks_main.rs /repo/assert-struct-macros/src/ src/
 cp /repo/Cargo.lock Cargo.lock
